@@ -175,15 +175,44 @@ def whole_match_is_group1(pattern, flags=0):
     return len(items) == 1 and items[0][0] == sc.SUBPATTERN and items[0][1][0] == 1
 
 
-class _SubMatch:
-    """match object handed to a replacement function / template: group 0 = group 1 = text[s:e]."""
+def _unwrap(seq):
+    """drop non-capturing, flag-less group wrappers around a one-item sequence."""
+    seq = list(seq)
+    while len(seq) == 1 and seq[0][0] == sc.SUBPATTERN and seq[0][1][0] is None and not seq[0][1][1] and not seq[0][1][2]:
+        seq = list(seq[0][1][3])
+    return seq
 
-    def __init__(self, s, e, n):
+
+def group1_shape(pattern, flags=0):
+    """how capture group 1 lies in a match of `pattern`:
+    ("whole",)            the pattern is exactly group 1 (possibly inside non-capturing wrappers);
+    ("last", minw)        the pattern is  (G)+ / (G){a,b} with a >= 1: group 1 is the last iteration - it ends
+                          where the match ends and starts at or after its start;
+    None                  anything else (not modelled)."""
+    seq = _unwrap(sp.parse(pattern, flags))
+    if len(seq) == 1 and seq[0][0] == sc.SUBPATTERN and seq[0][1][0] == 1:
+        return ("whole",)
+    if len(seq) == 1 and seq[0][0] in (sc.MAX_REPEAT, sc.MIN_REPEAT) and seq[0][1][0] >= 1:
+        sub = _unwrap(seq[0][1][2])
+        if len(sub) == 1 and sub[0][0] == sc.SUBPATTERN and sub[0][1][0] == 1:
+            minw = sp.SubPattern(sp.parse(pattern, flags).state, list(sub[0][1][3])).getwidth()[0]
+            return ("last", minw, seq[0][1][1])
+    return None
+
+
+class _SubMatch:
+    """match object handed to a replacement function / template: group 0 = text[s:e]; group 1 = the same
+    slice when the pattern is one capture group, the last iteration text[gs:e] when it is a repeated group."""
+
+    def __init__(self, s, e, n, gs=None):
         self.s, self.e, self.n = s, e, n
+        self.gs = s if gs is None else gs
 
     def group(self, k=0):
-        if k in (0, 1):
+        if k == 0:
             return TStr.sub(self.s, self.e, self.n)
+        if k == 1:
+            return TStr.sub(self.gs, self.e, self.n)
         raise IndexError("no such group")
 
     def start(self, k=0):
@@ -197,8 +226,9 @@ def sym_sub_wrap(eng, pattern, repl, text, n, max_matches=2, tag="s"):
     """re.sub(pattern, repl, text) for a pattern that is exactly one capture group and a template
     of the form  X \\1 Y : every character of `text` is kept, X/Y are inserted around up to
     `max_matches` non-overlapping matches (more matches: BoundExceeded)."""
-    if not whole_match_is_group1(pattern):
-        raise NotEncodable("re.sub stub needs a pattern that is one capture group")
+    shape = group1_shape(pattern)
+    if shape is None:
+        raise NotEncodable("re.sub stub needs a pattern that is one capture group or a repeated capture group")
     fn = None
     if callable(repl):
         # replacement function (interpreted): called once per match with a match object
@@ -231,7 +261,12 @@ def sym_sub_wrap(eng, pattern, repl, text, n, max_matches=2, tag="s"):
     for j in range(k):
         s, e = eng.fresh_int(f"ss_{tag}{j}"), eng.fresh_int(f"se_{tag}{j}")
         eng.add(cur <= s, s + minw <= e, e <= hi)
-        piece = fn(_SubMatch(s, e, subj.n))
+        gs = None
+        if shape[0] == "last" and shape[2] > 1:
+            # group 1 = the last of >= 1 iterations, each at least shape[1] wide
+            gs = eng.fresh_int(f"sg_{tag}{j}")
+            eng.add(z3.Or(gs == s, gs >= s + shape[1]), gs + shape[1] <= e)
+        piece = fn(_SubMatch(s, e, subj.n, gs))
         if isinstance(piece, str):
             piece = TStr([("lit", piece)] if piece else [], subj.n)
         if not isinstance(piece, TStr):
